@@ -1,5 +1,6 @@
 import FranzVerif.Model.Producer
 import FranzVerif.Proof.Producer
+import FranzVerif.Proof.ProducerFacts
 /-! C14 (produce half) — buffered/unbuffered hooks pair up exactly once per record, with the promise's error. -/
 namespace Props.C14
 open Model.Producer Proof.Producer
@@ -10,13 +11,51 @@ theorem hooks_pair_at_most_once (c : Cfg) (h : List Ev) (s : St) (hacc : run c {
     (hookBsOf id h).length ≤ 1 ∧ (hookUsOf id h).length ≤ 1 ∧
     ((hookUsOf id h).length = 1 → (hookBsOf id h).length = 1) ∧
     (∀ e, e ∈ promisesOf id h → hookUsOf id h = [e]) := by
-  sorry
+  have hi := inv_of_run hacc
+  cases hfd : find s.recs id with
+  | none =>
+    have hn := hi.recNone id hfd
+    simp [hn.promisesOf, hn.hookUsOf, hn.hookBsOf]
+  | some r =>
+    have hr := hi.recSome id r hfd
+    rw [hr.hprom, hr.hU, hr.hB]
+    refine ⟨by split <;> simp, by cases r.hookU <;> simp, ?_, ?_⟩
+    · intro hu
+      have : r.hookU.isSome = true := by cases hh : r.hookU <;> simp [hh] at hu ⊢
+      simp [hr.UB this]
+    · intro e he
+      have hp : r.promised = some e := by cases hh : r.promised <;> simp [hh] at he ⊢; exact he.symm
+      rw [hr.promU (by simp [hp]), hp]; rfl
 
 /-- At a quiescent point every record passed to the buffered hook has been passed exactly once to the
 unbuffered hook, with exactly the error its promise received. -/
 theorem hooks_pair_exactly_once_at_quiescence (c : Cfg) (h : List Ev) (n b : Nat) (s : St)
     (hacc : run c {} (h ++ [Ev.quiesce n b]) = some s) (id : Id) (hb : hookBsOf id h ≠ []) :
     (hookBsOf id h).length = 1 ∧ ∃ e, hookUsOf id h = [e] ∧ promisesOf id h = [e] := by
-  sorry
+  obtain ⟨s₁, h1, hchk⟩ := run_snoc hacc
+  have hi := inv_of_run h1
+  obtain ⟨hrecs, _⟩ := quiesce_check hchk
+  cases hfd : find s₁.recs id with
+  | none => exact absurd (hi.recNone id hfd).hookBsOf hb
+  | some r =>
+    have hr := hi.recSome id r hfd
+    obtain ⟨hp, hu, _⟩ := hrecs r (find_some hfd).1
+    obtain ⟨e, he⟩ := Option.isSome_iff_exists.1 hp
+    have hue : r.hookU = some e := by rw [hr.promU hp, he]
+    refine ⟨?_, e, ?_, ?_⟩
+    · rw [hr.hB, hr.UB hu]; rfl
+    · rw [hr.hU, hue]; rfl
+    · rw [hr.hprom, he]; rfl
+
+/-- Non-vacuity: an accepted history (a blocked Produce at the limit, a TryProduce failed with
+ErrMaxBuffered, a Flush) that ends at a quiescent point; the hooks of record 3 pair up with its promise. -/
+example : accepts { maxRecs := 1, maxBytes := 0, manual := false }
+    [.call 1 .produce 3, .hookB 1, .admit 1 1 3 3, .ret 1,
+     .call 2 .produce 2, .hookB 2, .block 2,
+     .call 3 .try_ 1, .hookB 3, .ret 3, .hookU 3 ⟨.maxBuffered, 7⟩, .promise 3 ⟨.maxBuffered, 7⟩,
+     .flushStart 1,
+     .hookU 1 .ok, .promise 1 .ok, .release 1 0 0,
+     .unblock 2, .admit 2 1 2 2, .ret 2, .hookU 2 .ok, .promise 2 .ok, .release 2 0 0,
+     .flushEnd 1 true, .closeStart, .closeEnd, .quiesce 0 0] = true := by decide
 
 end Props.C14
